@@ -312,6 +312,10 @@ def run(ctx):
                                        "P 3 semnew 1 1 0 open", "P 3 val 1", "P 3 acq 1", "P 3 rel 1", "P 3 free 1", "P 1 free 1",
                                        "X 2 sem_open %d %d" % (en, skip), "P 2 semnew 1 2 2 open", "P 2 free 1", "P 3 semnew 1 2 1 open", "P 3 val 1", "P 3 own 1", "P 3 free 1",
                                        "P 1 semnew 3 1 0 open", "P 1 own 3", "P 1 free 3", "P 1 semnew 3 2 0 open", "P 1 own 3", "P 1 free 3", "obs", "epoch"]))
+    # a signal handler runs while a process sits in p_semaphore_acquire (sem_wait reports EINTR once): the call still returns only by consuming
+    # a unit - at once when one is there, after the next release when none is
+    scripts.append(("inject", ["P 1 semnew 1 1 1 create", "P 2 semnew 1 1 0 open", "X 2 sem_wait 4 0", "P 2 acq 1", "P 1 val 1", "P 2 rel 1", "P 1 val 1",
+                               "P 1 acq 1", "P 2 val 1", "X 2 sem_wait 4 0", "A 2 acq 1", "T 2", "P 1 val 1", "P 1 rel 1", "W 2", "P 1 val 1", "P 2 rel 1", "P 2 free 1", "P 1 free 1", "obs", "epoch"]))
     names = ["%s_%d" % (prefix, n) for n in (1, 2, 3)]
     files = []
     try:
